@@ -26,10 +26,20 @@ def nontrivial(src, out):
 import math
 
 
-def special(rng):
+def special(rng, force=None):
     """(a) hairline strokes under a magnifying ancestor; (b) sharp miter corners with wide strokes, sampled along the
     outward bisector where SVG bevels or not depending on the miter limit"""
-    k = rng.random()
+    k = rng.random() if force is None else force
+    if k > 0.94:
+        # the dotted-line idiom: zero-length dashes with round or square caps are dots
+        gap = rng.choice([8, 10, 12])
+        w = rng.choice([4, 5, 6])
+        cap = rng.choice(["round", "round", "square"])
+        y = rng.choice([20.0, 35.0, 50.0])
+        src = ('<svg xmlns="http://www.w3.org/2000/svg" viewBox="0 0 100 100"><path d="M10,%s L92,%s" fill="none" stroke="red" stroke-width="%d" '
+               'stroke-dasharray="0 %d" stroke-linecap="%s"/></svg>' % (y, y, w, gap, cap))
+        pts = [(10 + gap * i, y) for i in range(1, 6)] + [(10 + gap * i + gap / 2.0, y) for i in range(1, 4)]
+        return src, pts
     if k < 0.05:
         # artwork in tiny local units under an enlarging transform: short hairlines and small dashes whose outline pieces
         # have a tiny area in the shape's own coordinates
@@ -78,6 +88,7 @@ def special(rng):
 
 
 P = RenderProp(features, "color", n_quick=100, n_thorough=600, nontrivial=nontrivial, special=special)
+P.firsts = [0.97, 0.02, 0.07, 0.15, 0.23, 0.96, 0.03, 0.12]
 correspondence = P.correspondence
 search = P.search
 replay = P.replay
